@@ -604,6 +604,8 @@ class Ev:
     def to_str(self, v, node):
         if isinstance(v, (BStr, str)):
             return v
+        if isinstance(v, SymObj) and v.has("__str__"):
+            return v.get("__str__")
         if z3.is_expr(v) and z3.is_int(v):
             return int_to_str(v)
         if isinstance(v, Choice):
